@@ -125,7 +125,13 @@ type C12Owner struct {
 	K string `json:"k"` // table col handle row cell det
 	A int    `json:"a,omitempty"`
 	B int    `json:"b,omitempty"`
+	// the facade every Table method on the way to the owner is called on:
+	// 0 = the core table, i = the i-th rendering wrapper made in the history
+	W int `json:"w,omitempty"`
 }
+
+// VCoq is the owner as a watched vowner: (facade, owner)
+func (o C12Owner) VCoq() string { return fmt.Sprintf("(%d, %s)", o.W, o.Coq()) }
 
 func (o C12Owner) Coq() string {
 	switch o.K {
@@ -146,13 +152,17 @@ func (o C12Owner) Coq() string {
 }
 
 func (o C12Owner) String() string {
+	via := ""
+	if o.W > 0 {
+		via = fmt.Sprintf("@wrapper%d", o.W)
+	}
 	switch o.K {
 	case "table":
-		return "table"
+		return "table" + via
 	case "cell":
-		return fmt.Sprintf("cell(%d,%d)", o.A, o.B)
+		return fmt.Sprintf("cell(%d,%d)%s", o.A, o.B, via)
 	}
-	return fmt.Sprintf("%s(%d)", o.K, o.A)
+	return fmt.Sprintf("%s(%d)%s", o.K, o.A, via)
 }
 
 type C12Op struct {
@@ -163,10 +173,26 @@ type C12Op struct {
 	R   int       `json:"r,omitempty"`
 	D   int       `json:"d,omitempty"`
 	N   int       `json:"n,omitempty"`
-	How string    `json:"how,omitempty"` // touch: update-changed update-same text render-csv render-html render-json headers gostring
+	How string    `json:"how,omitempty"` // touch: update-changed update-same text render-csv render-html render-json headers gostring; wrap: the entry point
+	W   int       `json:"w,omitempty"`   // ops without an owner: the facade the Table methods are called on (wrap: the facade that gets wrapped)
+}
+
+// facade is the facade the op's Table methods are called on
+func (op C12Op) facade() int {
+	if op.O != nil {
+		return op.O.W
+	}
+	return op.W
 }
 
 func (op C12Op) Coq() string {
+	if op.Op == "wrap" {
+		return fmt.Sprintf("VWrap %d", c12EntryKind(op.How))
+	}
+	return fmt.Sprintf("VOp %d (%s)", op.facade(), op.coqOp())
+}
+
+func (op C12Op) coqOp() string {
 	switch op.Op {
 	case "set":
 		v := "None"
@@ -203,7 +229,21 @@ func (op C12Op) Coq() string {
 }
 
 func (op C12Op) Go() string {
+	s := op.goOp()
+	if op.Op != "wrap" && op.O == nil && op.W > 0 {
+		s += fmt.Sprintf("   // t = wrapper%d", op.W)
+	}
+	return s
+}
+
+func (op C12Op) goOp() string {
 	switch op.Op {
+	case "wrap":
+		base := "t"
+		if op.W > 0 {
+			base = fmt.Sprintf("wrapper%d", op.W)
+		}
+		return fmt.Sprintf("wrapper(new) := %s   // around %s; a New entry point makes the table itself", op.How, base)
 	case "set":
 		v := "nil"
 		if op.V > 0 {
@@ -323,6 +363,8 @@ type c12Handle struct {
 
 type c12World struct {
 	t       *tabular.ATable
+	wraps   []tabular.Table // rendering wrappers made so far; facade i = wraps[i-1]
+	nsteps  int
 	rows    []*tabular.Row
 	pos     []int // row number in the table (1-based), 0 = not in the table
 	dets    []*tabular.Cell
@@ -365,12 +407,23 @@ func (w *c12World) tableLens() (int, map[int]int) {
 	return tl, cols
 }
 
-func (w *c12World) cellPtr(r, c int) *tabular.Cell {
+// fac returns facade i: the core table or a wrapper (nil: no such facade)
+func (w *c12World) fac(i int) tabular.Table {
+	if i == 0 {
+		return w.t
+	}
+	if i < 0 || i > len(w.wraps) {
+		return nil
+	}
+	return w.wraps[i-1]
+}
+
+func (w *c12World) cellPtr(r, c int, f tabular.Table) *tabular.Cell {
 	if r < 0 || r >= len(w.rows) || c < 0 {
 		return nil
 	}
 	if w.pos[r] > 0 {
-		p, err := w.t.CellAt(tabular.CellLocation{Row: w.pos[r], Column: c + 1})
+		p, err := f.CellAt(tabular.CellLocation{Row: w.pos[r], Column: c + 1})
 		if err != nil {
 			return nil
 		}
@@ -385,11 +438,16 @@ func (w *c12World) cellPtr(r, c int) *tabular.Cell {
 
 // resolve returns the owner as the library hands it out and a reader of its chain length
 func (w *c12World) resolve(o C12Owner) (tabular.PropertyOwner, func() int, bool) {
+	f := w.fac(o.W)
+	if f == nil {
+		return nil, nil, false
+	}
 	switch o.K {
 	case "table":
-		return w.t, func() int { n, _ := w.tableLens(); return n }, true
+		// (the chain length is always read off the core table's %#v)
+		return f, func() int { n, _ := w.tableLens(); return n }, true
 	case "col":
-		c := w.t.Column(o.A)
+		c := f.Column(o.A)
 		if c == nil {
 			return nil, nil, false
 		}
@@ -415,7 +473,7 @@ func (w *c12World) resolve(o C12Owner) (tabular.PropertyOwner, func() int, bool)
 			return c12CountLinks(s)
 		}, true
 	case "cell":
-		p := w.cellPtr(o.A, o.B)
+		p := w.cellPtr(o.A, o.B, f)
 		if p == nil {
 			return nil, nil, false
 		}
@@ -454,6 +512,32 @@ const (
 )
 
 func (w *c12World) step(op C12Op) int {
+	first := w.nsteps == 0
+	w.nsteps++
+	if op.Op == "wrap" {
+		base := w.fac(op.W)
+		if base == nil {
+			base = w.t
+		}
+		wr, core := c12MakeWrapper(op.How, base)
+		if wr == nil {
+			return c12Invalid
+		}
+		if core != nil {
+			// a New entry point: the wrapper made its own table, which is the
+			// table of the history (possible only before anything else happened)
+			if !first {
+				return c12Invalid
+			}
+			w.t = core
+		}
+		w.wraps = append(w.wraps, wr)
+		return c12OK
+	}
+	f := w.fac(op.facade())
+	if f == nil {
+		return c12Invalid
+	}
 	switch op.Op {
 	case "set":
 		po, _, ok := w.resolve(*op.O)
@@ -478,7 +562,7 @@ func (w *c12World) step(op C12Op) int {
 		var p *tabular.Cell
 		switch op.O.K {
 		case "cell":
-			p = w.cellPtr(op.O.A, op.O.B)
+			p = w.cellPtr(op.O.A, op.O.B, f)
 		case "det":
 			if op.O.A >= 0 && op.O.A < len(w.dets) {
 				p = w.dets[op.O.A]
@@ -508,21 +592,21 @@ func (w *c12World) step(op C12Op) int {
 		if op.R < 0 || op.R >= len(w.rows) || w.pos[op.R] > 0 {
 			return c12Invalid
 		}
-		w.t.AddRow(w.rows[op.R])
-		w.pos[op.R] = w.t.NRows()
+		f.AddRow(w.rows[op.R])
+		w.pos[op.R] = f.NRows()
 		return c12OK
 	case "additems":
 		items := make([]interface{}, op.N)
 		for i := range items {
 			items[i] = &c12mut{"x"}
 		}
-		w.t.AddRowItems(items...)
-		all := w.t.AllRows()
+		f.AddRowItems(items...)
+		all := f.AllRows()
 		w.rows = append(w.rows, all[len(all)-1])
 		w.pos = append(w.pos, len(all))
 		return c12OK
 	case "takecol":
-		c := w.t.Column(op.N)
+		c := f.Column(op.N)
 		if c == nil {
 			return c12Invalid
 		}
@@ -533,11 +617,11 @@ func (w *c12World) step(op C12Op) int {
 		for i := range items {
 			items[i] = fmt.Sprintf("h%d", i)
 		}
-		w.t.AddHeaders(items...)
+		f.AddHeaders(items...)
 		return c12OK
 	case "addsep":
-		w.t.AddSeparator()
-		all := w.t.AllRows()
+		f.AddSeparator()
+		all := f.AllRows()
 		w.rows = append(w.rows, all[len(all)-1])
 		w.pos = append(w.pos, len(all))
 		return c12OK
@@ -545,7 +629,7 @@ func (w *c12World) step(op C12Op) int {
 		var p *tabular.Cell
 		switch op.O.K {
 		case "cell":
-			p = w.cellPtr(op.O.A, op.O.B)
+			p = w.cellPtr(op.O.A, op.O.B, f)
 		case "det":
 			if op.O.A >= 0 && op.O.A < len(w.dets) {
 				p = w.dets[op.O.A]
@@ -565,7 +649,7 @@ func (w *c12World) step(op C12Op) int {
 		var p *tabular.Cell
 		switch op.O.K {
 		case "cell":
-			p = w.cellPtr(op.O.A, op.O.B)
+			p = w.cellPtr(op.O.A, op.O.B, f)
 		case "det":
 			p = w.dets[op.O.A]
 		}
@@ -596,7 +680,7 @@ func (w *c12World) step(op C12Op) int {
 		case "render-json":
 			_, _ = tjson.Wrap(w.t).Render()
 		case "headers":
-			for _, c := range w.t.Headers() {
+			for _, c := range f.Headers() {
 				_ = c.String()
 			}
 		default:
@@ -694,7 +778,18 @@ type c12Result struct {
 
 const c12CaseTimeout = 20 * time.Second
 
+// On a machine that is badly overloaded a worker may not even get started
+// within the time limit; a case that timed out is run once more with a much
+// longer limit before "no answer" counts as what the implementation did.
 func c12RunIsolated(spec []byte) c12Result {
+	res, timedOut := c12RunIsolatedOnce(spec, c12CaseTimeout)
+	if timedOut {
+		res, _ = c12RunIsolatedOnce(spec, 6*c12CaseTimeout)
+	}
+	return res
+}
+
+func c12RunIsolatedOnce(spec []byte, limit time.Duration) (c12Result, bool) {
 	self, err := os.Executable()
 	if err != nil {
 		panic(err)
@@ -713,7 +808,7 @@ func c12RunIsolated(spec []byte) c12Result {
 	timedOut := false
 	select {
 	case <-done:
-	case <-time.After(c12CaseTimeout):
+	case <-time.After(limit):
 		timedOut = true
 		cmd.Process.Kill()
 		<-done
@@ -741,7 +836,7 @@ func c12RunIsolated(spec []byte) c12Result {
 		res.obs = append(res.obs, c12StepObs{R: c12Panic})
 		res.pmsg = "the process did not survive this step"
 		if timedOut {
-			res.pmsg += fmt.Sprintf(" (no answer within %v: killed)", c12CaseTimeout)
+			res.pmsg += fmt.Sprintf(" (no answer within %v: killed)", limit)
 		}
 		for _, ln := range strings.Split(stderr.String(), "\n") {
 			if strings.Contains(ln, "fatal error") || strings.HasPrefix(ln, "panic:") || strings.Contains(ln, "goroutine stack exceeds") {
@@ -750,7 +845,7 @@ func c12RunIsolated(spec []byte) c12Result {
 			}
 		}
 	}
-	return res
+	return res, timedOut
 }
 
 // the generated specs are executed ahead of time by a pool of workers
@@ -810,9 +905,14 @@ type c12Abs struct {
 	rows    [][2]int // in table?, ncells
 	ndets   int
 	handles []int
+	nwraps  int
 }
 
 func (a *c12Abs) canon(o C12Owner) (string, bool) {
+	// a wrapper stands for the table: the facade only has to exist
+	if o.W < 0 || o.W > a.nwraps {
+		return "", false
+	}
 	switch o.K {
 	case "table":
 		return "table", true
@@ -856,6 +956,13 @@ func c12CopyMap(m map[int]int) map[int]int {
 }
 
 func (a *c12Abs) step(op C12Op) int {
+	if op.Op == "wrap" {
+		a.nwraps++
+		return c12OK
+	}
+	if f := op.facade(); f < 0 || f > a.nwraps {
+		return c12Invalid
+	}
 	switch op.Op {
 	case "set":
 		n, ok := a.canon(*op.O)
@@ -1017,7 +1124,12 @@ func c12Classify(sp *C12Spec, obs []c12StepObs) (sig string, what string) {
 		// broken, not sharing with somebody else.
 		ownBad := false
 		isOwn := func(j int) bool {
-			return op.Op == "set" && op.O != nil && sp.Watch[j] == *op.O
+			if op.Op != "set" || op.O == nil {
+				return false
+			}
+			x, y := sp.Watch[j], *op.O
+			x.W, y.W = 0, 0 // the same owner through whatever facade
+			return x == y
 		}
 		for j := range exp {
 			var got *c12Entry
@@ -1047,12 +1159,16 @@ func c12Classify(sp *C12Spec, obs []c12StepObs) (sig string, what string) {
 		if len(bad) > 0 {
 			what = fmt.Sprintf("after step %d (%s): %s", i, op.Go(), strings.Join(bad, "; "))
 			switch {
-			case op.Op == "touch" || op.Op == "addheaders" || op.Op == "newcellof" || op.Op == "get":
+			case op.Op == "touch" || op.Op == "addheaders" || op.Op == "newcellof" || op.Op == "get" || op.Op == "wrap":
 				// nothing was set in this step at all
 				sig = "map-changed-without-a-set"
 				lenOnly = false
 			case ownBad:
 				sig = "owner-map-law"
+				lenOnly = false
+			case op.Op == "set" && op.O.W > 0 && (op.O.K == "table" || op.O.K == "col"):
+				// the owner set through a rendering wrapper reads right; somebody else changed
+				sig = "set-through-wrapper-changes-another-owner"
 				lenOnly = false
 			case kinds["col"] || kinds["handle"]:
 				sig = "column-handle-stale-after-growth"
@@ -1115,7 +1231,7 @@ func c12CaseCoq(sp *C12Spec, obs []c12StepObs) string {
 		ks = append(ks, c12KeyCoq(k))
 	}
 	for _, w := range sp.Watch {
-		ws = append(ws, w.Coq())
+		ws = append(ws, w.VCoq())
 	}
 	for _, o := range sp.Ops {
 		os = append(os, o.Coq())
@@ -1817,6 +1933,31 @@ func c12Shrink(spec json.RawMessage) []json.RawMessage {
 		w := append(append([]C12Owner{}, sp.Watch[:i]...), sp.Watch[i+1:]...)
 		emit(sp.Ops, w)
 	}
+	// call on / read through the core table instead of a wrapper
+	for i, op := range sp.Ops {
+		if op.facade() > 0 && op.Op != "wrap" {
+			ops := append([]C12Op{}, sp.Ops...)
+			if op.O != nil {
+				o := *op.O
+				o.W = 0
+				ops[i].O = &o
+			}
+			ops[i].W = 0
+			emit(ops, sp.Watch)
+		}
+		if op.Op == "wrap" && op.W > 0 {
+			ops := append([]C12Op{}, sp.Ops...)
+			ops[i].W = 0
+			emit(ops, sp.Watch)
+		}
+	}
+	for i, o := range sp.Watch {
+		if o.W > 0 {
+			w := append([]C12Owner{}, sp.Watch...)
+			w[i].W = 0
+			emit(sp.Ops, w)
+		}
+	}
 	if sp.VK != 0 {
 		out = append(out, mustJSON(C12Spec{Ops: sp.Ops, Keys: sp.Keys, Watch: sp.Watch}))
 	}
@@ -1832,6 +1973,13 @@ func c12Size(sp *C12Spec) int {
 		if op.Op == "takecol" {
 			n += op.N
 		}
+		n += 5 * op.facade()
+		if op.Op == "wrap" {
+			n += 5 * op.W
+		}
+	}
+	for _, o := range sp.Watch {
+		n += o.W
 	}
 	return n
 }
@@ -1851,6 +1999,7 @@ func c12LenBucket(n int) string {
 func c12Tags(sp *C12Spec, obs []c12StepObs) []string {
 	has := map[string]bool{}
 	kinds := map[string]bool{}
+	var tags []string
 	handleBeforeGrowth, handle := false, false
 	maxLen := 0
 	for _, op := range sp.Ops {
@@ -1860,6 +2009,12 @@ func c12Tags(sp *C12Spec, obs []c12StepObs) []string {
 			if op.V == 0 {
 				has["set-nil"] = true
 			}
+		}
+		if op.Op == "wrap" {
+			tags = append(tags, "wrapper="+strings.SplitN(op.How, ":", 2)[0])
+		}
+		if op.Op == "set" && op.O.W > 0 {
+			tags = append(tags, "set-through-wrapper-on="+op.O.K)
 		}
 		if op.Op == "takecol" {
 			handle = true
@@ -1875,7 +2030,6 @@ func c12Tags(sp *C12Spec, obs []c12StepObs) []string {
 			}
 		}
 	}
-	var tags []string
 	for k := range has {
 		tags = append(tags, "op="+k)
 	}
@@ -1892,7 +2046,7 @@ func c12Tags(sp *C12Spec, obs []c12StepObs) []string {
 	tags = append(tags, fmt.Sprintf("key-types=%d", len(types)), fmt.Sprintf("max-chain=%s", c12LenBucket(maxLen)),
 		fmt.Sprintf("ops=%d", (len(sp.Ops)/5)*5))
 	sort.Strings(tags)
-	return tags
+	return c12DedupTags(tags)
 }
 
 func init() {
@@ -1906,6 +2060,7 @@ func init() {
 			"over owners table / column n incl. 0 / handle / row / cell through CellAt / detached cell copy, keys from {int 1, int64 1, \"1\", two pointers, two struct keys, int 2, and pointer keys of different types holding the same address: &struct / &struct.firstField, a named pointer type / *T, (*int)(nil) / (*string)(nil), pointers to two zero-size types} plus, for the deep-chain stream, the values 3..10 as int / int64 / string / pointer / struct / uint8 / float64 / named int32; " +
 			"after every step every watched owner is read under every key and its chain length is read off %#v; every history runs in a process of its own (package-level state cannot leak between cases; a fatal crash such as a stack overflow on a cyclic chain is an observation, not a harness failure); " +
 			"every history of exactly 4 (thorough: 5) steps after a fixed prefix in the 3 two-owner scenarios with sharing (cell copy, Row.Add of a copy, copy of a copy) and of 3 (4) steps in the scenarios with a handle held across growth to 25 columns (column 1, column 0), a handle on a headers-only column across AddHeaders shorter / longer and body growth, a cell and its copy under non-set operations (Update after mutating the item, renders, NewCell(cell), AddHeaders), and plain independent owners (keys in order of first use, concrete key triple rotating), deterministic deep-chain / re-set / Row.Add / per-column-handle histories, a deep-chain stream (one owner of every kind - table, column 0, column n, handle held across growth, row in and out of the table, cell, detached copy - loaded with 18-40 distinct keys of eight dynamic types, then set nil / re-set / nil-then-set of the newest, 16th-20th, middle and oldest links, for cells alternately through a by-value copy; 24 keys re-set round-robin twice then all set to nil), and random histories with growth in the middle; " +
+			"THE TABLE UNDER ANY OF ITS NAMES: rendering wrappers made at any moment of the history by every exported constructor of something that is a tabular.Table (texttable / csv / json / html / markdown .Wrap and .New, auto.Wrap and auto.New with every style auto.ListStyles() lists, wrappers around wrappers); every op of the history language calls its Table methods (SetProperty / GetProperty of the table, Column, CellAt, AddRow, AddRowItems, AddHeaders, AddSeparator, AllRows) on any facade and every watched owner is read back through a facade (also through the core table): every history of 2 (thorough 3) sets over {the table, column 0} x 3 keys x {value, nil} through each entry point, the same with the set through the wrapper and column 0 through the core, deep chains on the table and on column 0 through each wrapper package, and random / deep-chain histories with every op and every read moved to a random facade; " +
 			"non-trivial = at least one non-nil set took effect; distinct = distinct (history, trace)",
 		Exhaustive: "all histories of exactly 4 (thorough 5) steps over 2 owners x 3 keys x {set fresh value, set nil} + the scenario's structural ops (copy / Row.Add / AddRow / growth to 25 columns), in 3 sharing scenarios; one step shorter in 7 scenarios (handles across growth / header replacement, non-set operations, plain independent owners)",
 		Gen: func(r *RNG, tier string) []json.RawMessage {
@@ -1949,6 +2104,7 @@ func init() {
 			for i := 0; i < nr; i++ {
 				out = append(out, mustJSON(c12Random(r, i%5 == 4)))
 			}
+			out = append(out, c12ViaGen(r, tier)...)
 			c12Stash = out
 			return out
 		},
